@@ -1,284 +1,11 @@
 package main
 
 import (
-	"fmt"
-	"go/ast"
-	"go/token"
-	"strconv"
-	"strings"
-
 	. "verifharness/tlib"
+	"verifharness/tr/c09/tsfacts"
 )
 
-func main() { Main() }
-
-func intLit(e ast.Expr) (int64, bool) {
-	if p, ok := e.(*ast.ParenExpr); ok {
-		return intLit(p.X)
-	}
-	lit, ok := e.(*ast.BasicLit)
-	if !ok || lit.Kind != token.INT {
-		return 0, false
-	}
-	v, err := strconv.ParseInt(lit.Value, 0, 64)
-	return v, err == nil
-}
-
-// byteList: a composite literal of integer literals
-func byteList(e ast.Expr) ([]int64, bool) {
-	cl, ok := e.(*ast.CompositeLit)
-	if !ok {
-		return nil, false
-	}
-	var out []int64
-	for _, el := range cl.Elts {
-		v, ok := intLit(el)
-		if !ok || v < 0 || v > 255 {
-			return nil, false
-		}
-		out = append(out, v)
-	}
-	return out, true
-}
-
-func leanBytes(bs []int64) string {
-	s := make([]string, len(bs))
-	for i, b := range bs {
-		s[i] = fmt.Sprintf("0x%02x", b)
-	}
-	// wrap lines
-	var b strings.Builder
-	b.WriteString("[")
-	for i, x := range s {
-		if i > 0 {
-			b.WriteString(", ")
-			if i%16 == 0 {
-				b.WriteString("\n  ")
-			}
-		}
-		b.WriteString(x)
-	}
-	b.WriteString("]")
-	return b.String()
-}
-
-func leanNats(ns []int64) string {
-	s := make([]string, len(ns))
-	for i, n := range ns {
-		s[i] = strconv.FormatInt(n, 10)
-	}
-	return "[" + strings.Join(s, ", ") + "]"
-}
-
-// h264Const resolves h264.<Name> (or a literal) to its value
-func h264Const(e ast.Expr) (int64, bool) {
-	if v, ok := intLit(e); ok {
-		return v, true
-	}
-	sel, ok := e.(*ast.SelectorExpr)
-	if !ok || Src(sel.X) != "h264" {
-		return 0, false
-	}
-	return intLit(TopValue(Parse("av/codec/h264/const.go"), sel.Sel.Name))
-}
-
-// orChain flattens a || b || c
-func orChain(e ast.Expr) []ast.Expr {
-	if p, ok := e.(*ast.ParenExpr); ok {
-		return orChain(p.X)
-	}
-	if b, ok := e.(*ast.BinaryExpr); ok && b.Op == token.LOR {
-		return append(orChain(b.X), orChain(b.Y)...)
-	}
-	return []ast.Expr{e}
-}
-
-// eqTypes: `h264.A == v || h264.B == v ...` → values
-func eqTypes(cond ast.Expr, v string) ([]int64, bool) {
-	var out []int64
-	for _, t := range orChain(cond) {
-		b, ok := t.(*ast.BinaryExpr)
-		if !ok || b.Op != token.EQL {
-			return nil, false
-		}
-		var c ast.Expr
-		switch {
-		case Src(b.Y) == v:
-			c = b.X
-		case Src(b.X) == v:
-			c = b.Y
-		default:
-			return nil, false
-		}
-		n, ok := h264Const(c)
-		if !ok {
-			return nil, false
-		}
-		out = append(out, n)
-	}
-	return out, true
-}
-
-func init() {
-	Register("TsFacts", func(e *Emitter) {
-		wr := Parse("av/format/mpegts/writer.go")
-		fr := Parse("av/format/mpegts/frame.go")
-		// ---- the PAT/PMT block
-		hdr, ok := byteList(TopValue(wr, "mpegtsHeader"))
-		if !ok {
-			e.Unknown("mpegtsHeader")
-		}
-		e.P("/-- av/format/mpegts/writer.go: mpegtsHeader -/")
-		e.P("def mpegtsHeader : List UInt8 := %s", leanBytes(hdr))
-		// ---- PIDs and stream ids
-		for _, c := range []string{"tsVideoPid", "tsAudioPid", "tsAudioAac", "tsVideoAvc"} {
-			v, ok := intLit(TopValue(fr, c))
-			if !ok {
-				e.Unknown(c)
-			}
-			e.P("def %s : Nat := %d", c, v)
-		}
-		// ---- prepareAvcHeader
-		var aud []int64
-		var audTypes, psTypes []int64
-		skipLo, skipHi := int64(1), int64(0)
-		okAud, okAT, okPS, okSkip := false, false, false, true
-		if fd := FuncDecl(fr, "Frame", "prepareAvcHeader"); fd != nil && fd.Body != nil {
-			for _, st := range fd.Body.List {
-				switch s := st.(type) {
-				case *ast.AssignStmt:
-					if len(s.Lhs) == 1 && Src(s.Lhs[0]) == "audNal" && len(s.Rhs) == 1 {
-						aud, okAud = byteList(s.Rhs[0])
-					}
-				case *ast.IfStmt:
-					body := strings.Join(strings.Fields(Src(s.Body)), " ")
-					switch {
-					case body == "{ frame.Header = append(frame.Header, audNal...) }" && s.Else == nil:
-						audTypes, okAT = eqTypes(s.Cond, "nalUnitType")
-					case strings.Contains(body, "sps...") || strings.Contains(body, "pps..."):
-						want := "{ if len(sps) > 0 { frame.Header = append(frame.Header, audNal[:4]...) frame.Header = append(frame.Header, sps...) } " +
-							"if len(pps) > 0 { frame.Header = append(frame.Header, audNal[:4]...) frame.Header = append(frame.Header, pps...) } }"
-						stripped := stripComments(s.Body)
-						if stripped == want && s.Else == nil {
-							psTypes, okPS = eqTypes(s.Cond, "nalUnitType")
-						}
-					case body == "{ return }":
-						// nalUnitType >= h264.A && nalUnitType <= h264.B
-						okSkip = false
-						if b, ok := s.Cond.(*ast.BinaryExpr); ok && b.Op == token.LAND {
-							l, ok1 := b.X.(*ast.BinaryExpr)
-							r, ok2 := b.Y.(*ast.BinaryExpr)
-							if ok1 && ok2 && l.Op == token.GEQ && r.Op == token.LEQ && Src(l.X) == "nalUnitType" && Src(r.X) == "nalUnitType" {
-								lo, o1 := h264Const(l.Y)
-								hi, o2 := h264Const(r.Y)
-								if o1 && o2 {
-									skipLo, skipHi, okSkip = lo, hi, true
-								}
-							}
-						}
-					}
-				}
-			}
-		}
-		if !okAud {
-			e.Unknown("prepareAvcHeader.audNal")
-		}
-		if !okAT {
-			e.Unknown("prepareAvcHeader.audTypes")
-		}
-		if !okPS {
-			e.Unknown("prepareAvcHeader.paramSets")
-		}
-		if !okSkip {
-			e.Unknown("prepareAvcHeader.skipRange")
-		}
-		e.P("/-- frame.go prepareAvcHeader: the access unit delimiter with its 4-byte start code -/")
-		e.P("def audNal : List UInt8 := %s", leanBytes(aud))
-		e.P("/-- NAL types in front of which the delimiter is inserted -/")
-		e.P("def avcAudTypes : List Nat := %s", leanNats(audTypes))
-		e.P("/-- NAL types in front of which SPS and PPS (each with audNal[:4]) are inserted -/")
-		e.P("def avcParamSetTypes : List Nat := %s", leanNats(psTypes))
-		e.P("/-- `if nalUnitType >= lo && nalUnitType <= hi { return }` before the sample start code (absent: 1, 0) -/")
-		e.P("def avcSkipLo : Nat := %d", skipLo)
-		e.P("def avcSkipHi : Nat := %d", skipHi)
-		// ---- h264_packetizer.go: key: nalType == h264.NalIdrSlice
-		keyType, okKey := int64(0), false
-		pk := Parse("av/format/mpegts/h264_packetizer.go")
-		if fd := FuncDecl(pk, "h264Packetizer", "Packetize"); fd != nil {
-			ast.Inspect(fd, func(n ast.Node) bool {
-				if kv, ok := n.(*ast.KeyValueExpr); ok && Src(kv.Key) == "key" {
-					if ts, ok := eqTypes(kv.Value, "nalType"); ok && len(ts) == 1 {
-						keyType, okKey = ts[0], true
-					}
-				}
-				return true
-			})
-		}
-		if !okKey {
-			e.Unknown("h264Packetizer.key")
-		}
-		e.P("/-- h264_packetizer.go: `key: nalType == h264.NalIdrSlice` -/")
-		e.P("def avcKeyType : Nat := %d", keyType)
-		// ---- adtsheader.go template
-		var adts []int64
-		okAdts := false
-		if fd := FuncDecl(Parse("av/codec/aac/adtsheader.go"), "", "NewADTSHeader"); fd != nil && fd.Body != nil {
-			for _, st := range fd.Body.List {
-				if s, ok := st.(*ast.AssignStmt); ok && len(s.Lhs) == 1 && Src(s.Lhs[0]) == "adtsHeader" && s.Tok == token.DEFINE {
-					adts, okAdts = byteList(s.Rhs[0])
-				}
-			}
-		}
-		if !okAdts || len(adts) != 7 {
-			e.Unknown("NewADTSHeader.template")
-		}
-		e.P("/-- adtsheader.go NewADTSHeader: the template bytes -/")
-		e.P("def adtsTemplate : List UInt8 := %s", leanBytes(adts))
-		// ---- writer.go WriteMpegtsFrame: PES length limit, PCR adaptation field
-		limit, afLen, afFlags := int64(0), int64(0), int64(0)
-		okLimit, okAf := false, false
-		if fd := FuncDecl(wr, "Writer", "WriteMpegtsFrame"); fd != nil {
-			ast.Inspect(fd, func(n ast.Node) bool {
-				s, ok := n.(*ast.IfStmt)
-				if !ok {
-					return true
-				}
-				if b, ok := s.Cond.(*ast.BinaryExpr); ok && b.Op == token.GTR && Src(b.X) == "pesSize" {
-					if v, ok := intLit(b.Y); ok && strings.Join(strings.Fields(stripComments(s.Body)), " ") == "{ pesSize = 0 }" {
-						limit, okLimit = v, true
-					}
-				}
-				if Src(s.Cond) == "frame.key" {
-					var lits []int64
-					for _, st := range s.Body.List {
-						if a, ok := st.(*ast.AssignStmt); ok && a.Tok == token.ASSIGN && Src(a.Lhs[0]) == "pkt[p]" {
-							if v, ok := intLit(a.Rhs[0]); ok {
-								lits = append(lits, v)
-							}
-						}
-					}
-					if len(lits) == 2 {
-						afLen, afFlags, okAf = lits[0], lits[1], true
-					}
-				}
-				return true
-			})
-		}
-		if !okLimit {
-			e.Unknown("WriteMpegtsFrame.pesLimit")
-		}
-		if !okAf {
-			e.Unknown("WriteMpegtsFrame.pcrField")
-		}
-		e.P("/-- writer.go: `if pesSize > 0xffff { pesSize = 0 }` -/")
-		e.P("def pesLengthLimit : Nat := %d", limit)
-		e.P("/-- writer.go, key frames: adaptation_field_length and flags of the PCR field -/")
-		e.P("def pcrFieldLength : Nat := %d", afLen)
-		e.P("def pcrFieldFlags : Nat := %d", afFlags)
-	})
-}
-
-// stripComments prints a node without comments, whitespace-normalised
-func stripComments(n ast.Node) string {
-	return strings.Join(strings.Fields(Src(n)), " ")
+func main() {
+	tsfacts.Register_()
+	Main()
 }
